@@ -114,6 +114,9 @@ def evaluate_case(v, case, impl_res, model_res, listed_quirks):
     if model_res.get("parse") == "unsupported":
         v.stats["unsupported"] += 1
         v.bump("unsupported:" + model_res.get("why", "")[:40])
+        # the answer of a request outside the modelled class is not compared - but it has to be an answer
+        if impl_res is not None and impl_res.get("crash"):
+            v.violations.append(("crash", case, "the implementation crashed on a request outside the modelled class (%s): %s" % (model_res.get("why", ""), (impl_res.get("stderr") or "")[-400:])))
         return
     kind, impl = parse_impl(impl_res, model_res)
     h = common.case_hash([case.get("dataset_hash"), text, case.get("optimize")])
